@@ -120,6 +120,11 @@ def check_batches(ctx, fb):
         it = get(fb, name, "override_range")
         ctx.touch(it)
         inst = "%s::override_range" % name
+        # which removal indices are reset (and so listed as empty): exactly those outside the written range, decided over all
+        # orderings of (i, start, end) (rule shared with C08 R08-1)
+        from . import c08
+        okf, whyf = c08.removal_filter(fb, it)
+        ctx.check(okf, "R15-1", inst + " removal filter", "a removal index is reset and listed as empty iff i < start || i >= start + len(leaves)", whyf, loc(it))
         eng = Engine(fb, inline=lambda i: False)
         paths = eng.run(it)
         dels = []
@@ -355,6 +360,29 @@ def check_reopen(ctx, fb):
                 derive["set1"] = True
             if eqs and eqs[0][1] is True and not stores:
                 derive["skip"] = True
+    # structure invariant established by the constructor: the flag vector has one entry per position of the tree it belongs to - the
+    # capacity of the tree object that was actually loaded or created (a stored tree keeps its own depth), not a value computed
+    # from the constructor's arguments
+    okl, whyl, nl = True, "", 0
+    for p in paths:
+        if p.kind != "return":
+            continue
+        rv = eng.value_of(p.store, p.ret)
+        if known_ok(rv) is not True or not (isinstance(rv[4][0], tuple) and rv[4][0][0] == "adt"):
+            continue
+        st = dict(zip(rv[4][0][3], rv[4][0][4]))
+        fl, tr = st.get(treefx.FLAGS), st.get("tree")
+        base = fl
+        k_ = 0
+        while isinstance(base, tuple) and base and base[0] in ("phi", "with", "upd") and k_ < 6:
+            base = base[4] if base[0] == "phi" else (base[1] if base[0] == "with" else base[3][0])
+            k_ += 1
+        nl += 1
+        want_len = ("call", "zerokit_utils::vacp2p_pmtree::MerkleTree::<D, H>::capacity", (tr,))
+        if not (isinstance(base, tuple) and base and base[0] == "call" and base[1] == "std::vec::from_elem" and cint(base[2][0]) == 0 and base[2][1] == want_len):
+            okl, whyl = False, "the flag vector is %s, specification vec![0; capacity()] of the tree it is stored with (%s)" % (sh(base, 120), sh(tr, 60))
+    ctx.check(okl and nl >= 2, "R15-3", "pmtree::new flag vector length", "one flag per position of the loaded / created tree: vec![0; tree.capacity()]",
+              whyl or "expected the load and the create success paths, found %d" % nl, loc(it))
     if not loaded_ok:
         ctx.fail("R15-3", "pmtree::new reopen", "no success path through the load branch found: anchor shape not recognised", loc(it))
     elif all(derive.values()):
